@@ -25,6 +25,7 @@ NoFilter == [t |-> "none", L |-> <<>>, V |-> <<>>]
 Accept(f, e, w) == CASE f.t = "none" -> TRUE
                      [] f.t = "all"  -> TRUE
                      [] f.t = "rej"  -> FALSE
+                     [] f.t = "rejz" -> FALSE     \* rejects everything; the callable itself is falsy
                      [] f.t = "sel"  -> Has(f.L, e) \/ Has(f.V, w)
 
 QOk(out)  == [err |-> FALSE, exc |-> "", out |-> out]
@@ -56,11 +57,10 @@ NbList(S, v, dir, unk, f) ==
 Nb(S, v, dir, unk, f) ==
   IF NbErr(S, v, dir, unk, f) THEN QErr("NotImplementedError") ELSE QOk(NbList(S, v, dir, unk, f))
 
-\* The statement does not say whether a filter is consulted before an
-\* unknown-type link raises under UNK_ERR: such combinations are open.
-NbOpen(S, v, dir, unk, f) ==
-  /\ unk = UNK_ERR /\ dir # ANY /\ f.t \in {"rej", "sel"}
-  /\ \E i \in DOMAIN S.vl[v] : S.kind[S.vl[v][i]] \in UnkKinds /\ ~Accept(f, S.vl[v][i], Other(S, S.vl[v][i], v))
+\* Under UNK_ERR an unknown-type link raises whatever the filter says: the statement gives
+\* NotImplementedError as THE outcome for such an edge, and a filter only restricts a result.
+\* (An earlier version of this specification left that combination open; see DESIGN.md 10.)
+NbOpen(S, v, dir, unk, f) == FALSE
 
 -----------------------------------------------------------------------------
 (* find_links(a, b, direction_sensitive, unknown_handling, filterfunc)      *)
@@ -82,10 +82,7 @@ FindLinks(S, a, b, ds, unk, f) ==
     THEN QErr("NotImplementedError")
     ELSE QOk(SetToSeqAsc({e \in Rng(S.vl[a]) : FLEntry(S, a, b, e, ds, unk, f) = "in"}))
 
-FLOpen(S, a, b, ds, unk, f) ==
-  /\ ds /\ unk = UNK_ERR /\ f.t \in {"rej", "sel"}
-  /\ \E i \in DOMAIN S.vl[a] : /\ S.kind[S.vl[a][i]] \in UnkKinds /\ Other(S, S.vl[a][i], a) = b
-                               /\ ~Accept(f, S.vl[a][i], -1)
+FLOpen(S, a, b, ds, unk, f) == FALSE
 
 -----------------------------------------------------------------------------
 (* Traversals.  M is the set of objects belonging to the universe, or      *)
